@@ -481,6 +481,31 @@ def reachable_when_flag(f: "F", flag: str, targets, extra=()):
     return sorted(set(targets) & r)
 
 
+def _flag_guarded_closed(ctx, P, fi, node_idx, flag, depth=4, _stack=()):
+    """the effect is unreachable when `flag` is set -- by a guard in fi itself, or (fi private) at every call site"""
+    f = F(ctx, fi)
+    if not reachable_when_flag(f, flag, [node_idx]):
+        return True, []
+    here = f"{fi.qual} (L{f.g.nodes[node_idx].lineno})"
+    public = not fi.name.startswith("_") or (fi.name.startswith("__") and fi.name.endswith("__"))
+    if public or depth == 0 or fi.qual in _stack:
+        return False, [here + " [public entry reaches it with the flag set]"]
+    callers = [c for c in ctx.cg.callers(fi.qual) if c != fi.qual]
+    if not callers:
+        return False, [here + " [no caller found]"]
+    for cq in callers:
+        cfi = P.functions[cq]
+        cg_ = ctx.cfg(cfi)
+        for s_ in ctx.cg.sites.get((cq, fi.qual), []):
+            sn = node_of(cg_, s_)
+            if sn is None:
+                return False, [here, f"{cq} [call site not found]"]
+            ok, ch = _flag_guarded_closed(ctx, P, cfi, sn, flag, depth - 1, _stack + (fi.qual,))
+            if not ok:
+                return False, [here] + ch
+    return True, []
+
+
 def _guard_dominates(rep, rule, fi, g, flag, effects, what, ctx=None):
     f = F(ctx, fi) if ctx is not None else None
     guards = [n.idx for n in g.nodes if any(guard_acl_flag(c) == flag for c in g.calls(n.idx))]
@@ -671,14 +696,36 @@ def r4_skel_only(P, rep, ctx):
         af = F(ctx, fi)
         ok = bool(eff) and not reachable_when_flag(af, "skel_only", eff)
         rep.check(ok, "C15.R4", fi.qual, "attribute values refused when skel_only", fi.loc(), construct="skel_only test in __getitem__", message="WrappedAttributeManager.__getitem__ returns attribute values although skel_only is set")
-    for m in ("get", "values", "items"):
-        fi = P.func(f"{I}.MetadorMeta.{m}")
+    # every place where MetadorMeta reads object *content* (bytes of a stored object, or hands out the stored-object records)
+    # is behind the skel_only guard -- in the function itself or, for private helpers, at every call site
+    mm = P.cls(f"{I}.MetadorMeta")
+    n_eff = 0
+    for fi in list(mm.methods.values()):
+        if not isinstance(fi.node, (ast.FunctionDef, ast.AsyncFunctionDef)) or fi.name in ("__init__",):
+            continue
         g = ctx.cfg(fi)
-        eff = [n.idx for n in g.nodes if n.kind != "entry" and any(isinstance(x, ast.Attribute) and x.attr == "_objs" for e in n.exprs if e is not None for x in walk_local(e))
-               or any(call_attr(c) in ("_get_raw", "_parse_obj", "query") for c in g.calls(n.idx))]
-        if not eff:
-            raise AnalysisError(f"C15.R4: no metadata access found in {fi.qual}")
-        _guard_dominates(rep, "C15.R4", fi, g, "skel_only", eff, "metadata read", ctx)
+        eff = []
+        for n in g.nodes:
+            if n.kind in ("entry", "exit", "raise"):
+                continue
+            hit = False
+            for e in n.exprs:
+                if e is None:
+                    continue
+                for x in walk_local(e):
+                    if isinstance(x, ast.Subscript) and isinstance(x.value, ast.Attribute) and x.value.attr == "node" and norm(x.slice) in ("()", "..."):
+                        hit = True  # <stored object>.node[()]
+                    if isinstance(x, ast.Call) and isinstance(x.func, ast.Attribute) and x.func.attr in ("values", "items") and norm(x.func.value) == "self._objs" and isinstance(n.stmt, ast.Return):
+                        hit = True  # the stored-object records themselves are handed out
+            if hit:
+                eff.append(n.idx)
+        for e in eff:
+            n_eff += 1
+            ok, chain_ = _flag_guarded_closed(ctx, P, fi, e, "skel_only")
+            rep.check(ok, "C15.R4", fi.qual, f"_guard_acl(skel_only) dominates metadata read (closed over callers): {g.nodes[e].text()[:70]}", fi.loc(g.nodes[e].stmt),
+                      construct=f"skel_only guard before {g.nodes[e].text()[:90]}", message=f"metadata read reachable without _guard_acl(NodeAcl.skel_only): {g.nodes[e].text()[:90]}", path=chain_)
+    if n_eff < 3:
+        raise AnalysisError(f"C15.R4: only {n_eff} metadata content reads found in MetadorMeta")
     # attrs property wraps whenever read_only or skel_only: covered by R1 (rawattrs)
     # __getitem__ / query("") go through get / values
     fi = P.func(f"{I}.MetadorMeta.__getitem__")
